@@ -195,7 +195,7 @@ def e1_site_findings(ctx, res, rule, e1, want, prop_label=None):
             if not s["trivial"]:
                 res.sample({"obligation": skey, "loc": s["sp"], "verdict": "PROVED", "instances": s["n"]})
             continue
-        ax = match_axiom(ctx.axioms, fn, kind, desc)
+        ax = match_axiom(ctx.axioms, fn, kind, desc, s.get("fail_chains"))
         if ax is not None:
             res.count(rule, 1, 0, 0)
             res.axioms_used.append("%s | %s" % (skey, ax["reason"][:120]))
